@@ -50,6 +50,7 @@ def gen_descs(g, tier):
     out += [gen_case(g, R, D, 4, diag=True) for R in (1, 3) for D in (1, 2, 3) for _ in range(1 if q else 6)]
     out.append(gen_case(g, 2, 3, 40000, stat=True))
     out.append(gen_case(g, 3, 2, 40000, stat=True, diag=True))
+    out.append(gen_case(g, 2, 2, 70001, stat=True))          # more draws than any power-of-two block size, not a multiple of one
     return [C.J(d) for d in out]
 
 
@@ -127,6 +128,14 @@ def run_impl(d):
             sec = np.sqrt((np.outer(np.diag(S[r]), np.diag(S[r])) + S[r] ** 2) / n)
             if np.any(np.abs(xc - S[r]) > 6 * sec):
                 fails.append(lin.fail(["C19"], "sample covariance outside 6 standard errors", "pdf.sample"))
+        # independence of the n draws: no draw occurs twice (probability zero for a continuous law), and the autocorrelation of
+        # the first coordinate stays within 6 / sqrt(n) at every lag up to n / 2 (FFT)
+        if len(np.unique(x.reshape(n, -1), axis=0)) != n:
+            fails.append(lin.fail(["C19"], "some draws are exact copies of other draws: the n draws are not independent", "pdf.sample"))
+        w = (x[:, 0, 0] - mu[0][0]) / np.sqrt(S[0][0, 0])
+        f = np.fft.rfft(w, 2 * n); acf = np.fft.irfft(f * np.conj(f))[1:n // 2] / n
+        if np.any(np.abs(acf) > 6.0 / np.sqrt(n)):
+            fails.append(lin.fail(["C19"], "autocorrelation between draws beyond 6 standard errors at lag %d" % (1 + int(np.argmax(np.abs(acf)))), "pdf.sample"))
         if R > 1:
             a = (x[:, 0] - mu[0]); b = (x[:, 1] - mu[1])
             cross = (a[:, :, None] * b[:, None, :]).mean(axis=0)
